@@ -508,4 +508,66 @@ theorem run_loc {S : P.Conn → Prop} {K : P.Packet → Prop} (hl : Loc P S K) :
 theorem init_loc {S : P.Conn → Prop} {K : P.Packet → Prop} (hl : Loc P S K) : LInv S K (World.init P) :=
   ⟨⟨hl.init, by intro dg h; simp [World.init] at h⟩, ⟨hl.init, by intro dg h; simp [World.init] at h⟩⟩
 
+/-! ## local invariants that depend on the clock -/
+
+/-- `S now c` survives the passage of time, every call and every delivery made at time `now` -/
+structure LocT (P : Proto) (S : Nat → P.Conn → Prop) : Prop where
+  init : ∀ now, S now P.init
+  mono : ∀ (now now' : Nat) (c : P.Conn), now ≤ now' → S now c → S now' c
+  call : ∀ (now : Nat) (draws : List Nat) (c : P.Conn) (cl : Call) (r : Ret P.Conn P.Packet),
+    P.call now draws c cl = .ok r → S now c → S now r.conn
+  recv : ∀ (now : Nat) (draws : List Nat) (c : P.Conn) (p : P.Packet) (alt : P.Alt) (r : Ret P.Conn P.Packet),
+    P.recv now draws c p alt = .ok r → S now c → S now r.conn
+
+def TInv {P : Proto} (S : Nat → P.Conn → Prop) (w : World P) : Prop := S w.now w.a.conn ∧ S w.now w.b.conn
+
+theorem step_loct {S : Nat → P.Conn → Prop} (hl : LocT P S) {w w' : World P} (h : TInv S w) (m : Move P)
+    (he : step w m = some w') : TInv S w' := by
+  cases m with
+  | advance dt =>
+    simp only [step] at he
+    injection he with he; subst he
+    exact ⟨hl.mono _ _ _ (Nat.le_add_right _ _) h.1, hl.mono _ _ _ (Nat.le_add_right _ _) h.2⟩
+  | call s draws c =>
+    simp only [step] at he
+    cases hr : P.call w.now draws (w.get s).conn c with
+    | error e => rw [hr] at he; cases he
+    | ok r =>
+      rw [hr] at he
+      injection he with he
+      subst he
+      cases s with
+      | a => exact ⟨hl.call _ _ _ _ _ hr h.1, h.2⟩
+      | b => exact ⟨h.1, hl.call _ _ _ _ _ hr h.2⟩
+  | deliver to i draws alt =>
+    simp only [step] at he
+    cases hdg : (w.get to.other).out[i]? with
+    | none => rw [hdg] at he; cases he
+    | some dg =>
+      rw [hdg] at he
+      simp only at he
+      cases hr : P.recv w.now draws (w.get to).conn dg.pkt alt with
+      | error e => rw [hr] at he; cases he
+      | ok r =>
+        rw [hr] at he
+        injection he with he
+        subst he
+        cases to with
+        | a => exact ⟨hl.recv _ _ _ _ _ _ hr h.1, h.2⟩
+        | b => exact ⟨h.1, hl.recv _ _ _ _ _ _ hr h.2⟩
+
+theorem run_loct {S : Nat → P.Conn → Prop} (hl : LocT P S) :
+    ∀ (ms : List (Move P)) (w w' : World P), TInv S w → run w ms = some w' → TInv S w' := by
+  intro ms
+  induction ms with
+  | nil => intro w w' h he; simp [run] at he; subst he; exact h
+  | cons m ms ih =>
+    intro w w' h he
+    simp only [run] at he
+    cases hst : step w m with
+    | none => rw [hst] at he; cases he
+    | some w1 => rw [hst] at he; exact ih w1 w' (step_loct hl h m hst) he
+
+theorem init_loct {S : Nat → P.Conn → Prop} (hl : LocT P S) : TInv S (World.init P) := ⟨hl.init _, hl.init _⟩
+
 end Tw.NetSim
